@@ -158,6 +158,7 @@ static const Op OPS[] = {
   OPZ(mpf_urandomb, "F=R", true, mpf_urandomb(F0, a.r, bc(a, 900) + 1), F_RAND),
   OPZ(gmp_asprintf_F, "=F", true, { char* p = nullptr; int n = gmp_asprintf(&p, "%.20Fe %Ff %.*Fg", F0, F0, (int)(a.u[2] % 30), F0); RI(n); r.sv.push_back(take_str(p)); }, F_STDIO),
   OPZ(gmp_sscanf_F, "F=", true, { int n = gmp_sscanf(a.str.c_str(), "%Ff", F0); RI(n); if (n != 1) mpf_set_ui(F0, 0); }, F_STDIO),
+  OPZ(mpf_rrandomb, "F=R", true, mpf_rrandomb(F0, a.r, (mp_size_t)(a.s[0] % 9), (mp_exp_t)(a.u[2] % 50)), F_RAND),
 };
 static const size_t NOPS = sizeof OPS / sizeof OPS[0];
 #undef Z0
